@@ -1,6 +1,7 @@
 (* C01 -- Stack content follows ordered-list semantics under any operation
    history.  Property theorems only; proofs live in StackRefine.v. *)
 From Stackage Require Import Base Generated StackImpl StackSpec StackSpecLemmas StackRefine.
+From Stackage Require Import ListTie PushTie WrapTie.
 Open Scope Z_scope.
 
 (* For every element type with a unique nil value, every push policy table,
@@ -78,6 +79,95 @@ Definition ex_els : list (option Z) := [Some 1; None; Some 3; Some 4; Some 5].
 Definition ex_isnil (v : option Z) := match v with None => true | _ => false end.
 Definition ex_ops : list (op (option Z)) :=
   [OPush [Some 6; Some 7]; OPop; OInsert (Some 9) 1; ORemove (-1); OSwap 0 2; OReverse; OIndex (-2); OFront; OReset; OLen].
+
+
+(* Parts of the list model that are regenerated from /repo on every run, and
+   the proofs that the model uses them as the source does: Reset's guard,
+   Remove's success test, and one iteration of each push loop (index, insert,
+   replace, swap, pop are regenerated fragments the model calls directly). *)
+Theorem c01_model_is_tied_to_the_source :
+  (forall (V : Type) (r : raw V),
+     reset V r = match g_reset (zlen r) with TCut 0 _ _ => firstn 1 r | _ => r end) /\
+  (forall (V : Type) (nilv : V) (isnil : V -> bool) (r : raw V) (idx : Z),
+     in_i64 (ulen V r - 1) ->
+     remove V nilv isnil r idx =
+     do c <- config V r;
+     do (s, index, found) <- index V nilv isnil r idx;
+     let r' := SCfg c :: keep_except V index 1 (tl r) in
+     match g_remove found (slot_notnil V isnil s) (ulen V r) (ulen V r') 0 with
+     | TRet _ [looped; ok] => if looped then Ok (r', s, ok) else Ok (r, s, false)
+     | _ => Unmodelled
+     end) /\
+  (forall (V : Type) (isstack : V -> bool) (c : scfg) (r : raw V) (x : V) (xs : list V),
+     generic_append V isstack c r (x :: xs) =
+     match g_genericAppend_body (g_canPushNester (positive c c_nnest) (isstack x)) (g_isFull (zlen r) (k_cap c)) with
+     | TCut 0 _ _ => generic_append V isstack c (r ++ [SVal x]) xs
+     | _ => generic_append V isstack c r xs
+     end).
+Proof.
+  split; [exact reset_is_source|]. split; [exact remove_is_source|exact generic_append_iteration].
+Qed.
+Print Assumptions c01_model_is_tied_to_the_source.
+
+
+(* The eight public wrappers of the model are the wrappers of the source:
+   which test guards which call (handle initialised / stack not empty, value
+   not nil, not read-only) is regenerated from /repo, the call made once the
+   guards are passed is pinned as text. *)
+Theorem c01_wrappers_are_the_source_wrappers :
+  (forall (V : Type) (nilv : V) (isnil isstack : V -> bool) (pol : N -> V -> option N) (r : raw V) (c : scfg),
+     config V r = Ok c ->
+     let ro := positive c c_ronly in
+     (forall vs, step V nilv isnil isstack pol r (OPush vs) =
+        match g_wrap_Push true ro with
+        | TCut 0 _ _ => do (r', log) <- push V isstack pol r vs; Ok (r', RLog log)
+        | _ => Ok (r, RLog [])
+        end) /\
+     step V nilv isnil isstack pol r OPop =
+       match g_wrap_Pop (IsEmpty V r) ro with
+       | TCut 0 _ _ => do (r', s, ok) <- pop V nilv isnil r; Ok (r', RVal s ok)
+       | _ => Ok (r, RVal (SVal nilv) false)
+       end /\
+     (forall v i, step V nilv isnil isstack pol r (OInsert v i) =
+        match g_wrap_Insert true (negb (isnil v)) ro i with
+        | TCut 0 _ _ => do (r', ok) <- insert V r v i; Ok (r', RBool ok)
+        | _ => Ok (r, RBool false)
+        end) /\
+     (forall i, step V nilv isnil isstack pol r (ORemove i) =
+        match g_wrap_Remove true ro i with
+        | TCut 0 _ _ => do (r', s, ok) <- remove V nilv isnil r i; Ok (r', RVal s ok)
+        | _ => Ok (r, RVal (SVal nilv) false)
+        end) /\
+     (forall v i, step V nilv isnil isstack pol r (OReplace v i) =
+        match g_wrap_Replace true (negb (isnil v)) ro i with
+        | TCut 0 _ _ => do (r', ok) <- replace V r v i; Ok (r', RBool ok)
+        | _ => Ok (r, RBool false)
+        end) /\
+     (forall i j, step V nilv isnil isstack pol r (OSwap i j) =
+        match g_wrap_Swap true ro i j with
+        | TCut 0 _ _ => do r' <- swap V r i j; Ok (r', RUnit)
+        | _ => Ok (r, RUnit)
+        end) /\
+     step V nilv isnil isstack pol r OReverse =
+       match g_wrap_Reverse (IsEmpty V r) ro with
+       | TCut 0 _ _ => Ok (reverse V r, RUnit)
+       | _ => Ok (r, RUnit)
+       end /\
+     step V nilv isnil isstack pol r OReset =
+       match g_wrap_Reset true ro with
+       | TCut 0 _ _ => Ok (reset V r, RUnit)
+       | _ => Ok (r, RUnit)
+       end) /\
+  g_wrap_Push_tails = ["r.stack.push(y...)"; "return r"]%string /\
+  g_wrap_Pop_tails = ["popped, ok = r.stack.pop()"]%string /\
+  g_wrap_Insert_tails = ["ok = r.stack.insert(x, left)"]%string /\
+  g_wrap_Remove_tails = ["slice, ok = r.stack.remove(idx)"]%string /\
+  g_wrap_Replace_tails = ["r.stack.lock(); ok = r.stack.replace(x, idx); r.stack.unlock()"]%string /\
+  g_wrap_Swap_tails = ["r.stack.swap(i, j)"]%string /\
+  g_wrap_Reverse_tails = ["r.stack.reverse()"; "return r"]%string /\
+  g_wrap_Reset_tails = ["r.stack.reset()"]%string.
+Proof. split; [exact step_wrappers_are_source|exact wrapper_calls]. Qed.
+Print Assumptions c01_wrappers_are_the_source_wrappers.
 
 Example c01_hypotheses_satisfiable :
   cap_ok ex_cfg (zlen ex_els) /\ zlen ex_els <= 5 /\ 5 + growth _ ex_ops < Bnd /\ Forall (op_i64 _) ex_ops /\
